@@ -64,3 +64,20 @@ func ReadMessage(r io.Reader) (msg Message, err error) {
 	err = msg.Unmarshal(mr)
 	return
 }
+
+// readBytes reads exactly n octets. The buffer grows with the octets which have actually arrived instead of being
+// allocated up front for a length announced by the peer.
+func readBytes(r io.Reader, n uint64) ([]byte, error) {
+	if n > 1<<31-1 {
+		return nil, fmt.Errorf("announced length of %d octets is too large", n)
+	}
+
+	var buf bytes.Buffer
+	if _, err := io.CopyN(&buf, r, int64(n)); err != nil {
+		if err == io.EOF {
+			err = io.ErrUnexpectedEOF
+		}
+		return nil, err
+	}
+	return buf.Bytes(), nil
+}
